@@ -123,11 +123,15 @@ class RateLimiter(BaseRateLimiter):
 
     def cleanup(self):
         max_interval = 0
-        if not self.rules.get("ip"):
+        # per-address state is kept for the "ip" rules and for the rules of specific addresses
+        for category, category_rules in self.rules.items():
+            if category == "global":
+                continue
+            for rules in category_rules.values():
+                if rules:
+                    max_interval = max(max(rules)[0], max_interval)
+        if not max_interval:
             return
-        for rules in self.rules["ip"].values():
-            rule_res = max(rules)[0]
-            max_interval = max(rule_res, max_interval)
 
         now = self._timestamp()
         to_del = []
